@@ -284,11 +284,11 @@ theorem pairW_add (a b : α) : pairW a b + pairW b a = 2 := by
   rcases lt_trichotomy a b with h | h | h
   · have h1 : ¬ b < a := not_lt.mpr (le_of_lt h)
     have h2 : a ≠ b := ne_of_lt h
-    simp [h, h1, h2, Ne.symm h2]
+    simp [h, h1, h2]
   · subst h; simp
   · have h1 : ¬ a < b := not_lt.mpr (le_of_lt h)
     have h2 : b ≠ a := ne_of_lt h
-    simp [h, h1, h2, Ne.symm h2]
+    simp [h, h1, h2]
 
 theorem pair_sums (a : α) (y : List α) :
     (y.map (pairW a)).sum + (y.map (fun b => pairW b a)).sum = 2 * y.length := by
@@ -311,10 +311,15 @@ theorem twoU_cons_right (a : α) (x y : List α) :
     simp only [List.map_cons, List.sum_cons]
     omega
 
+theorem twoU_nil_right (y : List α) : twoU y [] = 0 := by
+  induction y with
+  | nil => rfl
+  | cons b y ih => rw [twoU_cons_left]; simp [ih]
+
 /-- U₁ + U₂ = n₁·n₂ (in 2·U units) -/
 theorem twoU_swap (x y : List α) : twoU x y + twoU y x = 2 * x.length * y.length := by
   induction x with
-  | nil => simp [twoU]
+  | nil => rw [twoU_nil_right]; simp [twoU]
   | cons a x ih =>
     rw [twoU_cons_left, twoU_cons_right]
     have := pair_sums a y
